@@ -16,7 +16,7 @@ import numpy as np
 from engine import harness
 from engine.harness import Skip
 from engine.sym import Sym, tosym
-from engine.zoo import make_mesh, topo, ref_weights
+from engine.zoo import make_mesh, topo, ref_weights, own_det_at
 from checks.c09 import make_elem, family
 
 
@@ -102,6 +102,11 @@ def side_values_direct(h, m, e, mapping, ed, x, f, side, lam):
     for d in range(dim):
         X[d, 0] = sum(lam[a] * float(R[d, loc[a]]) for a in range(nfv))
     tind = np.array([K], dtype=np.int32)
+    if h.sym_mode and m.refdom.__name__ in ('RefQuad', 'RefHex'):
+        # precondition: the cell map is non-degenerate at the facet point
+        dd = own_det_at(m, K, [X[d, 0] for d in range(dim)])
+        if dd.c is None:
+            h.assume(dd != 0)
     xphys = mapping.F(X, tind=tind)[:, 0, 0]
     val, grad = None, None
     for i in range(ed.shape[0]):
@@ -114,8 +119,15 @@ def side_values_direct(h, m, e, mapping, ed, x, f, side, lam):
     return val, grad, xphys
 
 
-def jump_obligations(h, tag, fam, dim, v0, v1, T, n, g0=None, g1=None, c1=False, check_value=True):
+def jump_obligations(h, tag, fam, dim, v0, v1, T, n, g0=None, g1=None, c1=False, check_value=True, approx=None):
     """Per component field: value / normal / tangential jump == 0."""
+    if approx is not None:
+        zero0 = h.zero
+
+        class _H:
+            def zero(self, key, val, **kw):
+                return zero0(key, val, approx=approx, **kw)
+        h = _H()
     for c in range(len(v0)):
         a, b = np.asarray(v0[c]), np.asarray(v1[c])
         d = a - b
@@ -138,8 +150,8 @@ def comp_families(e):
         return [f for el in e.elems for f in comp_families(el)]
     if isinstance(e, E.ElementVector):
         return ['h1']          # one vector-valued field: every Cartesian component continuous
-    if isinstance(e, E.ElementDG):
-        return ['dg']
+    if isinstance(e, E.ElementDG) or (e.nodal_dofs == 0 and e.facet_dofs == 0 and e.edge_dofs == 0):
+        return ['dg']          # cell-interior DOFs only: no continuity claimed
     f = family(e)
     return [{'h1': 'h1', 'global': 'h1', 'hdiv': 'hdiv', 'hcurl': 'hcurl', 'matrix': 'hdiv'}.get(f, 'h1')]
 
@@ -168,6 +180,9 @@ def trace_config(h, mesh, spec, pt=None, free=None, via='ifb', point='sym', c1=F
             raise Skip('no interior facet')
         if point == 'sym':
             s = h.sym('s', (max(bdim, 0), 1), nominal=np.array([[0.3125], [0.21875]])[:bdim]) if bdim > 0 else np.zeros((0, 1))
+            if h.sym_mode and bdim > 0 and via == 'direct':
+                for j in range(bdim):
+                    h.assume(h.And(s[j, 0] > 0, s[j, 0] < 1))
         elif point == 'mid':
             s = h.const(np.array([[0.5], [0.5]])[:bdim] if m.brefdom.__name__ != 'RefTri' else np.array([[1.0 / 3], [1.0 / 3]]))
             if h.sym_mode:
@@ -205,6 +220,10 @@ def trace_config(h, mesh, spec, pt=None, free=None, via='ifb', point='sym', c1=F
             ed = np.asarray(dd.element_dofs)
             N = int(dd.N)
             x = h.sym('x', (N,), nominal=(np.arange(N) * 5 % 7) - 2.5)
+            ap = None
+            if h.sym_mode and ('LinePp' in spec or 'QuadP' in spec):
+                # Legendre-based elements carry sqrt() normalisation constants: continuity holds to rounding only
+                ap = ([h.And(x[i] >= -1, x[i] <= 1) for i in range(N)], 1e-12)
             for f in ifac:
                 xg, T, n, lam = facet_geometry(h, m, f, s)
                 v0, g0, x0 = side_values_direct(h, m, e, mapping, ed, x, f, 0, lam)
@@ -212,7 +231,7 @@ def trace_config(h, mesh, spec, pt=None, free=None, via='ifb', point='sym', c1=F
                 for d in range(dim):
                     h.zero('facet %d: side 0 reference point maps to the facet point [%d]' % (f, d), x0[d] - xg[d])
                     h.zero('facet %d: side 1 reference point maps to the facet point [%d]' % (f, d), x1[d] - xg[d])
-                jump_obligations(h, 'facet %d' % f, fams, dim, v0, v1, T, n, g0, g1, c1=c1)
+                jump_obligations(h, 'facet %d' % f, fams, dim, v0, v1, T, n, g0, g1, c1=c1, approx=ap)
         if h.sym_mode and 'dg' not in fams and N is not None and what == 'jump':
             pass
 
